@@ -257,6 +257,14 @@ EXTRA11 = {
  "C20": " Round 11: the tessellator's unbounded recursion (Mercator near the poles) is a known finding (D59); wrapDestination treats x and y alike.",
 }
 
+EXTRA12 = {
+ "C10": " Round 12: Cell.CapBound covers the margin Cell.ContainsPoint accepts (D64 repaired); Cell.RectBound's and Cap.RectBound's missing allowances are known findings (D65, D66).",
+ "C12": " Round 12: Cell.CapBound covers the margin Cell.ContainsPoint accepts (D64 repaired); Cell.RectBound's missing allowance for it is a known finding (D65).",
+ "C15": " Round 12: a decoder compares each count with the limits its own encoder enforces.",
+ "C17": " Round 12: no primitive of edge_distances.go takes the plain cross product of two of its point arguments (PointCross is the robust normal).",
+ "C19": " Round 12: Cap.Complement rounds its radius outward (D63 repaired).",
+}
+
 PENDING = "check for this property is designed (DESIGN.md section 4) but not yet built in this revision; no claim is made"
 
 def main():
@@ -273,7 +281,7 @@ def main():
                 "evidence_file": f"/verif/evidence/{p}.json",
                 "replay_cmd_template": f"/verif/bin/s2lint -prop {p} -tier thorough -v   # re-derives the obligations listed in {{path}}",
                 "engine": "s2lint",
-                "level_claimed": {"category": "other", "text": c["text"] + EXTRA.get(p, "") + EXTRA6.get(p, "") + EXTRA7.get(p, "") + EXTRA8.get(p, "") + EXTRA9.get(p, "") + EXTRA10.get(p, "") + EXTRA11.get(p, ""), "design_ref": c["design"] + ", sections 9.1-9.10"},
+                "level_claimed": {"category": "other", "text": c["text"] + EXTRA.get(p, "") + EXTRA6.get(p, "") + EXTRA7.get(p, "") + EXTRA8.get(p, "") + EXTRA9.get(p, "") + EXTRA10.get(p, "") + EXTRA11.get(p, "") + EXTRA12.get(p, ""), "design_ref": c["design"] + ", sections 9.1-9.11"},
                 "level_note": c["note"],
                 "technique": c["technique"],
             })
